@@ -214,6 +214,14 @@ class RealWorld:
         return [f for f in self.flows.values() if f['open']]
 
     def src_of(self, flow):
+        """The source address of a flow, in the shapes the operating system returns: IPv4 (host, port) pairs, and
+        IPv6 (host, port, flowinfo, scope_id) 4-tuples — among them link-local senders that share host AND port and
+        differ only in the interface (scope id): different sources, whatever a shortened key makes of them."""
+        k = flow % 4
+        if k == 2:
+            return ('fe80::1', 5353, 0, 2 + flow)
+        if k == 3:
+            return ('2001:db8::%x' % (flow + 1), 5000 + flow % 1000, 0, 0)
         return ('10.1.%d.%d' % (flow // 256 % 256, flow % 256), 5000 + flow % 1000)
 
     def open(self, kind):
